@@ -32,9 +32,9 @@ KEY_POOL = ["k", "kk", "key", "key_2", "a-b", "Bar", "SHA-256", "n0", "x"]
 def gen_value(rng, depth, in_list=False, dotted=False):
     r = rng.random()
     if depth <= 0 or r < 0.5:
-        leaves = ["", "a", "a", "b", 0, 1, 2, True, False, None, 1.5, "text with space", "\u00e9"]
+        leaves = ["", "a", "a", "b", 0, 1, 2, True, False, None, 1.5, "text with space", "\u00e9", 2 ** 60, 10 ** 22]
         if not in_list:
-            leaves.append(0.0)
+            leaves += [0.0, -0.0, 7.0]
         return rng.choice(leaves)
     if r < 0.75:
         n = rng.choice([0, 1, 2, 2, 3])
@@ -48,6 +48,8 @@ def gen_value(rng, depth, in_list=False, dotted=False):
         k = rng.choice(KEY_POOL)
         if dotted and rng.random() < 0.05:
             k = "d.t"                                          # a key with a dot (plain dict content only)
+        elif dotted and rng.random() < 0.06:
+            k = rng.choice(["k\u007f", "\U0001f600k", "k k", "k'q", "k\\b"])   # DEL, non-BMP, space, quote, backslash
         d[k] = gen_value(rng, depth - 1, in_list, dotted)
     return d
 
@@ -113,7 +115,7 @@ def order_dict(rng, depth=2):
 def long_list(rng, deep=True):
     """11-13 distinct truthy elements, so that indices of two digits exist ('[10]' sorts before '[2]' as text);
     the last elements are sometimes containers."""
-    n = rng.choice([11, 12, 13])
+    n = rng.choice([11, 12, 13, 11, 12, 13, 100, 101])
     out = ["e%02d" % i for i in range(n)]
     if deep and rng.random() < 0.5:
         out[rng.choice([10, n - 1])] = rng.choice([{"k": "v", "kk": ["p", "q"]}, {"key": {"n0": 1}}])
@@ -343,6 +345,15 @@ def t_observed_data(rng, v21):
     return d
 
 
+FORCE_EXT = None      # None: random; True / False: the per-class coverage pass asks for both
+
+
+def want_ext(rng, p):
+    if FORCE_EXT is not None:
+        return FORCE_EXT
+    return rng.random() < p
+
+
 def base_sco(rng, typ):
     return {"type": typ, "spec_version": "2.1", "id": "%s--%s" % (typ, uuid(rng))}
 
@@ -376,7 +387,7 @@ def t_file(rng, v21):
         d["hashes"] = {"SHA-256": "b" * 64, "MD5": "c" * 32}
     if rng.random() < 0.4:
         d["size"] = rng.choice([0, 10])
-    if rng.random() < 0.5:
+    if want_ext(rng, 0.5):
         d["extensions"] = rng.choice([{"ntfs-ext": {"sid": "S-1"}},
                                       {"archive-ext": {"contains_refs": ["file--" + uuid(rng)], "comment": ""}}])
     return d
@@ -387,7 +398,7 @@ def t_network_traffic(rng, v21):
     d["protocols"] = rng.choice([["tcp"], ["ipv4", "tcp"]])
     d["src_ref"] = "ipv4-addr--" + uuid(rng)
     d["src_port"] = rng.choice([0, 80])
-    if rng.random() < 0.5:
+    if want_ext(rng, 0.5):
         d["extensions"] = rng.choice([{"socket-ext": {"address_family": "AF_INET", "is_listening": False}},
                                       {"tcp-ext": {"src_flags_hex": "00000002"}}])
     return d
@@ -398,7 +409,7 @@ def t_process(rng, v21):
     d["pid"] = rng.choice([0, 1, 4242])
     if rng.random() < 0.6:
         d["command_line"] = "cmd /c x"
-    if rng.random() < 0.55:
+    if want_ext(rng, 0.55):
         d["extensions"] = rng.choice([{"windows-process-ext": {"aslr_enabled": rng.choice([True, False]), "priority": "HIGH"}},
                                       {"windows-service-ext": {"service_name": "svc", "descriptions": ["d", "d"]}}])
     return d
@@ -426,10 +437,10 @@ TEMPLATES = [("Artifact", t_artifact), ("EmailMessage", t_email_message), ("File
              ("Relationship", t_relationship), ("Sighting", t_sighting), ("MarkingDefinition", t_marking_definition)]
 
 
-def gen_build(rng, how=None, want_markings=True):
+def gen_build(rng, how=None, want_markings=True, template=None, v21=None):
     """A build description for the worker (see c07_impl.py)."""
-    v21 = rng.random() < 0.6
-    cls, tmpl = rng.choice(TEMPLATES)
+    v21 = (rng.random() < 0.6) if v21 is None else v21
+    cls, tmpl = template or rng.choice(TEMPLATES)
     if cls in V21_ONLY:
         v21 = True
     d = tmpl(rng, v21)
@@ -457,7 +468,7 @@ def gen_build(rng, how=None, want_markings=True):
             d["confidence"] = rng.choice([0, 0, 50])
         if v21 and rng.random() < 0.3:
             d["lang"] = "en"
-        if v21 and rng.random() < 0.25:
+        if v21 and want_ext(rng, 0.25):
             d["extensions"] = {"extension-definition--" + uuid(rng): {
                 "extension_type": "property-extension", "rank": rng.choice([0, 5]), "toxicity": rng.choice(["", "t"])}}
         # content that is sensitive to the order in which paths are enumerated / compared
@@ -802,3 +813,23 @@ def priority_selector(sel):
     anything under the order-sensitive custom content."""
     import re
     return sel.count(".") >= 40 or bool(re.search(r"\[\d\d+\]", sel)) or sel.startswith("x_opts") or sel.startswith("x_list") or sel.startswith("name-")
+
+
+def coverage_builds(rng):
+    """Per-class pass: every class template x {2.0, 2.1 where both exist} x {class, parse} x {with, without extensions}."""
+    global FORCE_EXT
+    out = []
+    seen = set()
+    try:
+        for cls, tmpl in TEMPLATES:
+            if cls in seen:
+                continue
+            seen.add(cls)
+            for v21 in ((True,) if cls in V21_ONLY else (True, False)):
+                for how in ("class", "parse"):
+                    for ext in (True, False):
+                        FORCE_EXT = ext
+                        out.append(gen_build(rng, how=how, template=(cls, tmpl), v21=v21))
+    finally:
+        FORCE_EXT = None
+    return out
